@@ -358,6 +358,36 @@ func genC06(seed uint64, tier string, outdir string) *Report {
 		}
 	}
 	c06Reentrancy(rep, seed, tier)
+	// (d) natural panic in the guarded region (monitor-only: the model's amounts are unbounded): two
+	// consecutive deposits of 2^255 of one denom make the stock bank keeper panic with an integer
+	// overflow in MintCoins; the second must be processed (refunded) and the sequence consumed
+	for variant := 0; variant < 2; variant++ {
+		caseID++
+		vv, cid := variant, caseID
+		fresh := func() *L2Scenario { return NewL2Scenario(seed*4241+uint64(vv), cid, false) }
+		sc := fresh()
+		e, c := sc.Env, sc.Case
+		p255 := new(big.Int).Lsh(big.NewInt(1), 255)
+		amts := []*big.Int{p255, p255, big.NewInt(5)}
+		if variant == 1 {
+			amts = []*big.Int{big.NewInt(3), p255, new(big.Int).Sub(p255, big.NewInt(3)), big.NewInt(1), big.NewInt(2)}
+		}
+		for k, a := range amts {
+			c.Do(sc.Deposit(e.User(uint64(1+k%2)).Str, uint64(k+1), e.User(4).Str, 0, a, Hook{Kind: "none"}))
+		}
+		nv := len(rep.Violations)
+		c06Check(rep, c, 1)
+		c06EventCheck(rep, c)
+		l2AuthorisedCheck(rep, c, "C06", 1)
+		shrinkL2Violations(rep, nv, c, l2Replayer{Fresh: fresh, Monitor: func(rp *Report, cc *L2Case, _ Ov) {
+			c06Check(rp, cc, 1)
+			c06EventCheck(rp, cc)
+			l2AuthorisedCheck(rp, cc, "C06", 1)
+		}})
+		rep.Ops += len(c.Ops)
+		rep.CountCase(strings.Join(opsCoq(c.Ops), "\n"), true)
+		rep.Hist("script:supply-overflow-panic")
+	}
 	writeShards(outdir, "C06", l2CaseHeader, "run_l2case", "l2case", texts, 16, rep)
 	return rep
 }
